@@ -1144,12 +1144,19 @@ def check_C06(rep, prog, tier):
     rep.assumptions += ['storage operations are atomic; each activity is deterministic between storage operations',
                         'both activities are the real functions run from MIR in two interpreter threads; exactly one runs at a time',
                         'store / source / hash / JSON models as in C03']
-    res, st, fns, mods, inc = parallel_explore(prog, RC.make_race(prog, bound), deadline=dl, max_paths=400000, step_budget=900000)
+    for delete_latest in (False, True):
+        _race_obligation(rep, prog, RC, bound, dl, delete_latest)
+
+
+def _race_obligation(rep, prog, RC, bound, dl, delete_latest):
+    from .interp import parallel_explore
+    res, st, fns, mods, inc = parallel_explore(prog, RC.make_race(prog, bound, delete_latest=delete_latest), deadline=dl, max_paths=400000, step_budget=900000)
     rep.functions |= fns
     rep.models |= mods
     rep.samples += res.get('samples', [])[:2]
     stats = _stats(st)
-    name = 'after every interleaving (<= %d preemptions) every complete version refers only to blocks that still exist' % bound
+    name = ('a backup racing %s: after every interleaving (<= %d preemptions) every complete version refers only to blocks that still exist'
+            % ('a delete of the newest version (its basis)' if delete_latest else 'a garbage collection', bound))
     for b in res['bad']:
         m = b.get('model') or {}
         sa, sg = m.get('size_a', 10), m.get('size_g', 10)
@@ -1157,8 +1164,12 @@ def check_C06(rep, prog, tier):
               'first_tree': [{'path': '/a', 'kind': 'File', 'content_len': sa, 'content_class': 1, 'mtime': [10, 0], 'mode': 0o644}],
               'second_tree': [{'path': '/a', 'kind': 'File', 'content_len': sa, 'content_class': 1, 'mtime': [10, 0], 'mode': 0o644},
                               {'path': '/g', 'kind': 'File', 'content_len': sg, 'content_class': 7, 'mtime': [11, 0], 'mode': 0o644}],
-              'garbage_file': '/g', 'schedule': [a for a, v, p in b['schedule']],
+              'garbage_file': '/g', 'schedule': [a for a, v, p in b['schedule']], 'delete': [1] if delete_latest else [],
               'mirsym': {'key': b['key'], 'results': b['results'], 'schedule': [(a, v, p[-20:]) for a, v, p in b['schedule']]}}
+        if delete_latest:
+            fc = {'path': '/c', 'kind': 'File', 'content_len': m.get('size_c', 9), 'content_class': 3, 'mtime': [12, 0], 'mode': 0o644}
+            sc['middle_tree'] = [sc['first_tree'][0], fc]
+            sc['second_tree'] = [sc['second_tree'][0], fc, sc['second_tree'][1]]
         out, path = runner.replay(sc, 'C06_race')
         reproduced = any(v.get('restore_errors') or not v.get('restore_ok') for v in out.get('versions') or [])
         if reproduced:
